@@ -113,6 +113,9 @@ def _run(prop, tier, replay, text, quick_frac):
         agg = merge(res)
         rep.add_tlc('StoneLex', agg, {'MaxLines': maxlines, 'alphabet': 33})
         rep.add_judged(agg)
+        # file order for the value-against-type cases (cross-namespace example references, imported annotations, doc
+        # references into imported namespaces, route attribute schemas): every StoneLitMC case in both file orders
+        lit_stage(rep, 'C11', ('exlit', 'attr', 'annot') if tier == 'quick' else ('exlit', 'attr', 'annot', 'docref'))
         # delivery: the concatenated files on standard input must mean what the files mean (StoneStdin, SplitRestores)
         consts = {'MaxFiles': 2, 'MaxBody': 1} if tier == 'quick' else {'MaxFiles': 2, 'MaxBody': 2}
         res = run_shards('StoneStdin',
